@@ -491,10 +491,22 @@ class StmtMixin:
             if v.z is not None and not isinstance(v.z, tuple):
                 self._versioned_syms(v.z, live, seen)
         self._versioned_syms(st.alloc, live, seen)
+        def from_val(v, depth=0):
+            if not isinstance(v, Val) or depth > 4:
+                return
+            z = v.z
+            if isinstance(z, (tuple, list)):
+                for x in z:
+                    from_val(x, depth + 1)
+            elif z is not None and hasattr(z, "get_id"):
+                self._versioned_syms(z, live, seen)
+            if isinstance(v.origin, tuple):
+                for x in v.origin:
+                    if hasattr(x, "get_id") and not callable(x):
+                        self._versioned_syms(x, live, seen)
         for fr in st.frames:
             for v in fr.values():
-                if isinstance(v, Val) and v.z is not None and not isinstance(v.z, (tuple, dict, list)) and hasattr(v.z, "get_id"):
-                    self._versioned_syms(v.z, live, seen)
+                from_val(v)
         keep = []
         for f in st.pc:
             syms = set()
@@ -564,11 +576,26 @@ class StmtMixin:
                 after_havoc(hv)
             self.assume_invariants(spec, hv)
             results = []
+            # search loops: a body that writes nothing (it only inspects the element and may raise / return /
+            # break) needs no user invariant: on exit every element went through the body normally
+            idx_name = getattr(spec, "idx", "idx")
+            pure = (not spec.invariant and not [w for w in written if w[0] in ("heap", "glob")] and idx_name in hv.locals
+                    and z3.is_const(hv.locals[idx_name].z) and not self.discovery and after_havoc is not None)
+            head_pc_len = len(hv.pc)
+            idx_term = hv.locals[idx_name].z if pure else None
+            normal_deltas = []
+            exits = []
             for s, what in head(hv.fork()):
                 if what == "exit":
-                    results.append((s, NORMAL))
+                    if pure:
+                        exits.append(s)
+                    else:
+                        results.append((s, NORMAL))
                 elif what == "enter":
                     for s2, oc in self.exec_block(body, s):
+                        if oc[0] in ("normal", "continue") and pure:
+                            delta = s2.pc[head_pc_len:]
+                            normal_deltas.append(z3.And(*delta) if delta else z3.BoolVal(True))
                         if oc[0] in ("normal", "continue"):
                             for s3, oc3 in step(s2):
                                 if oc3[0] == "normal":
@@ -581,6 +608,15 @@ class StmtMixin:
                             results.append((s2, oc))
                 else:
                     results.append((s, what))
+            if pure:
+                self.lib.use("a loop whose body writes nothing: on normal exit, every element satisfied the condition under which the body completes normally")
+                i = z3.Int(fresh_name("it"))
+                P = z3.Or(*normal_deltas) if normal_deltas else z3.BoolVal(False)
+                Pi = z3.substitute(P, (idx_term, i))
+                for s in exits:
+                    # exits happen with idx == number of elements: everything below idx completed normally
+                    s.assume(z3.ForAll([i], z3.Implies(z3.And(0 <= i, i < idx_term), Pi)))
+                    results.append((s, NORMAL))
             return results
         finally:
             self._cur_loop = prev_loop
